@@ -232,6 +232,13 @@ pub struct SweepOut {
     pub wall_s: f64,
 }
 
+/// Process-wide count of solver-found value violations that were not refuted by the concrete replay. Once it reaches
+/// EARLY_STOP the remaining chunks of every sweep are skipped: the verdict (VIOLATION, exit 1) is already settled, and on a
+/// tree where nearly every batch fails, deciding every VC on its own would take tens of minutes. Never triggers on a tree
+/// where the property holds (no violations), so coverage there is unchanged.
+pub static CONFIRMED_VIOLATIONS: AtomicUsize = AtomicUsize::new(0);
+pub const EARLY_STOP: usize = 64;
+
 pub fn sweep(cfg: &SweepCfg) -> SweepOut {
     let next = AtomicUsize::new(0);
     let total = Mutex::new((Stats::default(), Vec::<Finding>::new(), Vec::<Value>::new()));
@@ -255,6 +262,9 @@ pub fn sweep(cfg: &SweepCfg) -> SweepOut {
                     table::set_table(tab);
                     let progs = (cfg.gen)(ti, tab);
                     for chunk in progs.chunks(cfg.batch) {
+                        if CONFIRMED_VIOLATIONS.load(Ordering::Relaxed) >= EARLY_STOP {
+                            break;
+                        }
                         run_batch(cfg, tab, chunk, &mut st, &mut findings, &mut samples, ti);
                     }
                 }
@@ -417,6 +427,9 @@ fn run_batch(
             Verdict::Unsat => {}
             Verdict::Sat => {
                 st.violations += 1;
+                if findings.len() >= cfg.max_findings {
+                    CONFIRMED_VIOLATIONS.fetch_add(1, Ordering::Relaxed);
+                }
                 if findings.len() < cfg.max_findings {
                     let mut f = mk_finding("value", vc.pipeline, &chunk[vc.prog], show_term(vc.imp), show_term(vc.rf), String::new());
                     f.detail = format!("impl=n{} ref=n{}", vc.imp, vc.rf);
@@ -426,6 +439,9 @@ fn run_batch(
                         f.concrete = conc;
                     }
                     f.model = model.into_iter().filter(|(k, _)| !k.starts_with('n')).collect();
+                    if f.confirmed != Some(false) {
+                        CONFIRMED_VIOLATIONS.fetch_add(1, Ordering::Relaxed);
+                    }
                     findings.push(f);
                 }
             }
